@@ -19,7 +19,7 @@ PLAN = dict(
     functions_under_contract=['tracing-appender/src/rolling.rs: Rotation::date_format - the parsed description of each rotation kind is calendar year, numeric month, day of month (, 24 h hour, minute) joined by dashes (one concrete harness per kind, through time\'s real parser)', 'tracing-appender/src/rolling.rs: Inner::prune_old_logs - the part after the directory listing (early return, sort by creation time, removal loop), extracted mechanically on every run; std sort_by_key replaced by a stable insertion sort (assumed contract)', 'tracing-appender/src/rolling.rs: Rotation::{round_date,next_date}, Inner::{should_rollover,advance_date}'],
     trusted_base=["Kani 0.68 / CBMC 6.11 / CaDiCaL; Kani's std build (nightly-2026-08-21), not the repo toolchain's", 'core::fmt::Formatter::pad stubbed to Ok(()) with -Z stubbing (panic-message formatting on infeasible error branches; no harness that uses it reads formatted text)', 'cfg(kani) thread_local! shim and once_cell::sync::Lazy contract stub (see overlay_additions)', "the `time` crate's Date/Time/OffsetDateTime arithmetic is executed, not stubbed"],
     assumptions=['atomicity of the compare_exchange (sequential execution)', 'timestamps >= 0 (`as usize` casts)'],
-    not_covered=['bytes landing in files, refresh_writer, prune_old_logs (directory iteration, creation times, remove_file)', 'join_date (where the period text goes between prefix and suffix, and time\'s formatting of an instant by the description: a harness with a marker stub for OffsetDateTime::format did not finish in 900 s)', 'RollingFileAppender::{write,make_writer} control flow (needs a File)'],
+    not_covered=['bytes landing in files, refresh_writer, the head of prune_old_logs (directory iteration, file-name matching, creation times; its tail - early return, sort, removal loop - is extracted and under contract)', 'join_date (where the period text goes between prefix and suffix, and time\'s formatting of an instant by the description: a harness with a marker stub for OffsetDateTime::format did not finish in 900 s)', 'RollingFileAppender::{write,make_writer} control flow (needs a File)'],
     kani=[dict(
         crate="tracing-appender", tls_shim_crates=["tracing-core", "tracing-subscriber"], once_cell_stub=True,
         modules=[dict(name="__verif_c16", attach="inline", file="tracing-appender/src/rolling.rs", modpath="rolling", files=["rolling.kani.rs"], generator="gen_prune_tail")],
